@@ -10,7 +10,7 @@ from hypothesis import strategies as st
 from ECAgent.Core import Agent, Model, System
 from ECAgent.Decode import Decoder, IDecodable, JsonDecoder
 from vf.engine import Violation, InvalidCase
-from vf.fixtures import check, sized_lists
+from vf.fixtures import check, sized_lists, wone_of
 
 PROPERTY = "C18"
 BUDGET = {"quick": 1200, "thorough": 4000}
@@ -238,9 +238,9 @@ def _brief(desc):
 
 
 def strategy(tier):
-    system = st.fixed_dictionaries({"priority": st.one_of(st.integers(-2, 3), st.integers(-10 ** 6, 10 ** 6)),
-                                    "frequency": st.one_of(st.none(), st.integers(1, 4)), "start": st.one_of(st.none(), st.integers(-3, 3)),
-                                    "end": st.one_of(st.none(), st.integers(-1, 9)), "pre": st.booleans(), "post": st.booleans()})
+    system = st.fixed_dictionaries({"priority": wone_of(st.integers(-2, 3), st.integers(-10 ** 6, 10 ** 6)),
+                                    "frequency": wone_of(st.none(), st.integers(1, 4)), "start": wone_of(st.none(), st.integers(-3, 3)),
+                                    "end": wone_of(st.none(), st.integers(-1, 9)), "pre": st.booleans(), "post": st.booleans()})
     group = st.fixed_dictionaries({"n": st.integers(0, 4), "pre": st.booleans(), "post": st.booleans()})
     desc = st.fixed_dictionaries({"systems": st.lists(system, max_size=4), "groups": st.lists(group, max_size=4),
                                   "hooks": st.fixed_dictionaries({"pre_model": st.booleans(), "post_model": st.booleans()}),
@@ -248,5 +248,5 @@ def strategy(tier):
     rich = st.fixed_dictionaries({"systems": st.lists(system, min_size=2, max_size=4), "groups": st.lists(group, min_size=2, max_size=4),
                                   "hooks": st.fixed_dictionaries({"pre_model": st.booleans(), "post_model": st.booleans()}),
                                   "module": st.sampled_from([True, True, False])})
-    return st.fixed_dictionaries({"descriptions": st.lists(st.one_of(desc, rich), min_size=1, max_size=3),
+    return st.fixed_dictionaries({"descriptions": st.lists(wone_of(desc, rich), min_size=1, max_size=3),
                                   "order": st.lists(st.integers(0, 2), min_size=1, max_size=5), "json_mask": st.integers(0, 31)})
